@@ -230,6 +230,21 @@ class ParsedSuite:
         self.has_preprocessor = False
 
 
+class QuotedName(str):
+    """a listing line written as one quoted token: a plain file name, whatever characters it contains (the manual
+    does not describe quoting in suite files; the repository's own tests of the listing-line parser fix the reading:
+    `'quoted file name with wild-cards **'` is the file of that name, and "Exactly does not put any restriction on
+    file names")"""
+
+
+def _whole_line_quoted(s):
+    if len(s) >= 3 and s[0] in '\'"' and s[-1] == s[0]:
+        inner = s[1:-1]
+        if not any(ch in inner for ch in '\'"\\') and inner == inner.strip():
+            return QuotedName(inner)
+    return None
+
+
 def parse_suite_text(text):
     ps = ParsedSuite()
     section = 'cases'  # "This is the default section."
@@ -252,6 +267,10 @@ def parse_suite_text(text):
                 ps.doubt.append('surrounding-space')
             if s.startswith('['):
                 ps.doubt.append('line-starts-with-bracket')
+            q = _whole_line_quoted(s)
+            if q is not None:
+                (ps.suites if section == 'suites' else ps.cases).append((n, q))
+                continue
             if any(ch in s for ch in '\'"\\'):
                 ps.doubt.append('quoting')
             toks = s.split()
@@ -380,7 +399,11 @@ def model(nodes, root_arg):
 
     def resolve_line(sdir, tok, what, spelled, n):
         """-> segment (list of alternative orderings) or None when the line makes the suite invalid"""
-        if _has_magic(tok):
+        if isinstance(tok, QuotedName):
+            m.features.add('quoted-name')
+            if _has_magic(tok):
+                m.features.add('quoted-name:wildcard-characters')
+        if _has_magic(tok) and not isinstance(tok, QuotedName):
             g = Glob(vfs)
             pairs = g.expand(sdir, tok)
             for d in g.doubt:
